@@ -79,7 +79,8 @@ def gen(rng, i, tier):
             rng.choice(srcs)["rail"] = "Vbatt rail"
     return {"spec": spec, "seed": rng.randrange(1 << 40), "model": rng.choice(["linear", "sag", "impedance", "noisy", "plateau", "plateau"]),
             "steps": rng.choice([1, 4, 7, 15, 40]), "end": rng.choice(["capacity", "cutoff", "already_below", "capacity"]),
-            "history": ["fresh", "identity_change_comp", "index_gaps", "solve_then_move_leaf"][i % 4], "by_rail": i % 3 != 0,
+            "history": ["fresh", "identity_change_comp", "index_gaps", "solve_then_move_leaf", "analysed_while_built",
+                        "solve_then_swap_leaves", "solve_then_retune"][i % 7], "by_rail": i % 3 != 0,
             "earlier_run": i % 5 in (1, 3), "declared_zero": i % 6 == 2, "on_copy": i % 7 == 3}
 
 
@@ -101,7 +102,17 @@ def run(ctx, case):
         b["args"]["vo"] = 0.0
         ctx.count("history", "battery declared with vo = 0.0")
     # the system is the product of a build history (edited after analysis, registries out of node order, index gaps)
-    spec, sysobj = _rows.build_with_history(ctx, spec, case.get("history", "fresh"), case["seed"] & 0xFFFFFF)
+    def _early_run(so):
+        # a short depletion run on the same battery at an EARLIER stage of the build history (other topology / other
+        # parameters than the judged run will see)
+        import itertools
+
+        kc = itertools.count()
+        with H.quiet():
+            H.call(so.batt_life, name, cutoff=v_decl * 0.5, pfunc=lambda: (0.01 * 3, v_decl, 0.05),
+                   dfunc=lambda t, i: (0.01 * max(0, 2 - next(kc)), v_decl, 0.05))
+
+    spec, sysobj = _rows.build_with_history(ctx, spec, case.get("history", "fresh"), case["seed"] & 0xFFFFFF, prefer=_early_run)
     b = [c for c in spec["comps"] if c["name"] == name][0]
     if case.get("on_copy"):
         sysobj = copy.deepcopy(sysobj)  # the depletion is simulated on a deep copy of the (possibly edited) system
